@@ -79,6 +79,18 @@ THEOREMS = [
     "OllamaVerif.Tie.C09.retry_table_complete",
     "OllamaVerif.Tie.C09.canRetry_matches_handlePull",
     "OllamaVerif.Tie.C09.outcomeOf_covers",
+    "OllamaVerif.Tie.C09.send_table_complete",
+    "OllamaVerif.Tie.C09.sendRequest_accepts_exactly_2xx",
+    "OllamaVerif.Tie.C09.follow_table_complete",
+    "OllamaVerif.Tie.C09.follow_matches_nethttp",
+    "OllamaVerif.Tie.C09.mrr_table_complete",
+    "OllamaVerif.Tie.C09.mrr_matches_makeRequestWithRetry",
+    "OllamaVerif.Tie.C09.tree_verifies",
+    "OllamaVerif.Tie.C09.tree_pull_success_verified",
+    "OllamaVerif.Tie.C09.tree_history_linked_layers_verified",
+    "OllamaVerif.Tie.C09.tree_pushes_config",
+    "OllamaVerif.Tie.C09.tree_push_manifest_after_every_blob",
+    "OllamaVerif.Tie.C09.tree_legacy_push_manifest_last",
     "OllamaVerif.C09.pull_success_verified_partial",
     # round 7: the invariant on the tree as it is (no staging), guarded by size-consistent manifests
     "OllamaVerif.C09.advance_inv",
@@ -143,6 +155,87 @@ def regenerate(ctx):
             "end OllamaVerif.Generated.C09\n")
     core.write_generated("OllamaVerif/Generated/C09_RetryTable.lean", body)
     ctx.coverage["retry_table"] = ", ".join(rows)
+    regenerate_tables(ctx)
+
+
+OVERLAY_TABLES = {"server/internal/client/ollama/zz_verif_c09_test.go": "server_internal_client_ollama/zz_verif_c09_test.go",
+                  "server/internal/client/ollama/zz_verif_c09_tables_test.go": "server_internal_client_ollama/zz_verif_c09_tables_test.go"}
+OVERLAY_TABLES_LEGACY = {"server/zz_verif_c09_push_test.go": "server/zz_verif_c09_push_test.go",
+                         "server/zz_verif_c09_tables_test.go": "server/zz_verif_c09_tables_test.go"}
+
+
+def regenerate_tables(ctx):
+    """Tie 1, round 7: execute the real sendRequest / net/http client / makeRequestWithRetry over their whole
+    finite status domain, and the variant probes; emit Generated/C09_HttpTables.lean and C09_Variant.lean.
+    A driver that fails leaves empty tables: the Tie theorems (completeness) then fail closed."""
+    import os
+    send, fol, mrr, var = [], [], [], {}
+    rc, out, outdir = ctx.go_test("./server/internal/client/ollama/", OVERLAY_TABLES, "^TestVerifC09Tables$")
+    if rc == 0:
+        rd = lambda n: [l.split() for l in open(os.path.join(outdir, n))] if os.path.exists(os.path.join(outdir, n)) else []
+        send, fol = rd("send.txt"), rd("follow.txt")
+        var.update({k: v for k, v in rd("variant.txt")})
+    else:
+        ctx.notes.append("table driver (client) failed: " + out[-400:])
+    rc, out, outdir = ctx.go_test("./server/", OVERLAY_TABLES_LEGACY, "^TestVerifC09LegacyTables$", timeout=1800)
+    if rc == 0:
+        rd = lambda n: [l.split() for l in open(os.path.join(outdir, n))] if os.path.exists(os.path.join(outdir, n)) else []
+        mrr = rd("mrr.txt")
+        var.update({k: v for k, v in rd("variant_legacy.txt")})
+    else:
+        ctx.notes.append("table driver (legacy) failed: " + out[-400:])
+    b = lambda x: "true" if x == "1" else "false"
+    body = ("-- REGENERATED on every run by vlib/checks/c09.py from /repo's working tree (TestVerifC09Tables, TestVerifC09LegacyTables). Do not edit.\n"
+            "namespace OllamaVerif.Generated.C09\n"
+            "/-- (status answered without Location, did the real sendRequest hand the response to its caller) -/\n"
+            "def sendTable : List (Nat × Bool) := [" + ", ".join(f"({s}, {b(o)})" for s, o in send) + "]\n"
+            "/-- (hops, method, body kind, first status, first answer has Location, second status (with Location; 0 = none),\n"
+            "    method of the request net/http's client sent next, \"-\" = it handed the answer to the caller) -/\n"
+            "def followTable : List (Nat × String × String × Nat × Bool × Nat × String) := [" +
+            ", ".join(f'({h}, "{m}", "{bd}", {s1}, {b(l1)}, {s2}, "{n}")' for h, m, bd, s1, l1, s2, n in fol) + "]\n"
+            "/-- (method, status answered without Location, what the real makeRequestWithRetry returned: ok | notFound | err) -/\n"
+            "def mrrTable : List (String × Nat × String) := [" + ", ".join(f'("{m}", {st}, "{c}")' for m, st, c in mrr) + "]\n"
+            "end OllamaVerif.Generated.C09\n")
+    core.write_generated("OllamaVerif/Generated/C09_HttpTables.lean", body)
+    # a status the real sendRequest accepts or refuses against the model's is2xx: report it with the input
+    for s_, o in send:
+        if (o == "1") != (200 <= int(s_) < 300):
+            ctx.violation("send-status-acceptance-differs", f"sendRequest: a GET answered {s_} without a Location header",
+                          f"the real sendRequest {'hands the response to its caller' if o == '1' else 'returns an error'}; the model's exchangeOk/is2xx says the opposite")
+    for m, st, c in mrr:
+        want = "notFound" if st == "404" else ("err" if int(st) >= 400 else "ok")
+        if c != want:
+            ctx.violation("legacy-status-classification-differs", f"makeRequestWithRetry: a {m} answered {st} without a Location header",
+                          f"the real makeRequestWithRetry returned {c}; the model's mrr says {want}")
+    flag = lambda k: b(var.get(k, "0"))
+    vbody = ("-- REGENERATED on every run by vlib/checks/c09.py from /repo's working tree (probes of the real code). Do not edit.\n"
+             "namespace OllamaVerif.Generated.C09\n"
+             "/-- Pull re-hashes every layer before Link -/\n"
+             f"def treeVerify : Bool := {flag('verify')}\n"
+             "/-- Chunked assembles into a staging file (F10d repaired) -/\n"
+             f"def treeStaged : Bool := {flag('staged')}\n"
+             "/-- Link keeps an existing link of the same length (F8 of C08) -/\n"
+             f"def treeLinkShortcut : Bool := {flag('linkShortcut')}\n"
+             "/-- Registry.Push offers the config blob (F30 repaired) -/\n"
+             f"def treePushConfig : Bool := {flag('pushConfig')}\n"
+             "/-- the legacy push call sites insist on a 2xx (F18 repaired) -/\n"
+             f"def treeStrict : Bool := {flag('strict')}\n"
+             "end OllamaVerif.Generated.C09\n")
+    core.write_generated("OllamaVerif/Generated/C09_Variant.lean", vbody)
+    ctx.coverage["tree_variant"] = dict(sorted(var.items()))
+    # Findings F10a-c and F30 are fixed in /repo: the repaired behaviour is EXPECTED.  A tree on which a probe
+    # finds the old behaviour has regressed; the probe's scenario is the failing input.
+    if var and var.get("verify") != "1":
+        ctx.violation("tree-variant-regressed",
+                      "pull: threshold 2, one 4-byte layer `abcd`, chunksums served `ab 0-1` twice (both chunks verify, 4/4 bytes counted)",
+                      "Registry.Pull reports success and links the name although the blob has 2 of 4 bytes: "
+                      "the whole-layer verification before Link (fix of F10a-c) is gone")
+    if var and var.get("pushConfig") != "1":
+        ctx.violation("tree-variant-regressed",
+                      "push: cached manifest with one layer and a config blob, the registry answers 200 to every request",
+                      "Registry.Push sends the manifest although no request named the config digest: "
+                      "the config blob is no longer offered before the manifest PUT (fix of F30 is gone)")
+    ctx.coverage["http_tables"] = {"sendRequest_statuses": len(send), "nethttp_follow_rows": len(fol), "makeRequestWithRetry_rows": len(mrr)}
 
 
 def l1_inputs(ctx, outdir, normalize=None):
@@ -238,6 +331,13 @@ def model_branch_coverage(ctx, outdir):
                       no_input=True)
 
 
+def leg_cases(ctx, leg, n, minimum=1):
+    """fail closed: a leg whose driver exits 0 without producing cases proves nothing"""
+    ctx.coverage.setdefault("l1_cases_per_leg", {})[leg] = n
+    if not ctx.replay and n < minimum:
+        ctx.violation("driver-no-cases", "", f"leg `{leg}`: the driver produced {n} L1 case(s), at least {minimum} expected", no_input=True)
+
+
 def run(ctx):
     if not ctx.replay:
         regenerate(ctx)
@@ -254,7 +354,7 @@ def run(ctx):
         if rc != 0:
             ctx.violation("driver-failed", "", out[-1500:], no_input=True)
         ctx.read_stats(outdir)
-        ctx.l1(outdir, label="client")
+        leg_cases(ctx, "client", ctx.l1(outdir, label="client"), 1000)
         l1_inputs(ctx, outdir)
         model_branch_coverage(ctx, outdir)
         ctx.classify(ctx.l2(outdir))
@@ -265,7 +365,7 @@ def run(ctx):
         if rc != 0:
             ctx.violation("driver-failed", "", out[-1500:], no_input=True)
         ctx.read_stats(outdir)
-        ctx.l1(outdir, label="legacy")
+        leg_cases(ctx, "legacy", ctx.l1(outdir, label="legacy"), 300)
         l1_inputs(ctx, outdir)
         ctx.classify(ctx.l2(outdir))
     if replay_kind in (None, "shared"):
@@ -273,8 +373,9 @@ def run(ctx):
         # process on a tree with finding F19 (the joined push leaves while it is the only waiter, then the
         # owner's session POST succeeds: blobUpload.Run dereferences a nil part hash).
         safe = False
-        if not ctx.replay:
-            rc, out, outdir0 = ctx.go_test("./server/", OVERLAY_LEGACY, "^TestVerifC09SharedCancelCrash$", env=env, timeout=900)
+        if True:   # also in --replay: the shared generator depends on this flag, a replay must see the same one
+            rc, out, outdir0 = ctx.go_test("./server/", OVERLAY_LEGACY, "^TestVerifC09SharedCancelCrash$",
+                                            env={k: v for k, v in env.items() if k != "VERIF_REPLAY"}, timeout=900)
             import os
             safe = rc == 0 and os.path.exists(os.path.join(outdir0, "runcancel.txt"))
             if rc != 0:
@@ -286,6 +387,9 @@ def run(ctx):
                                        l.strip() for l in out.splitlines() if "upload.go" in l)[:300]}])
                 else:
                     ctx.violation("driver-failed", "", out[-1500:], no_input=True)
+            elif not safe:
+                ctx.violation("driver-no-cases", "", "TestVerifC09SharedCancelCrash exited 0 without writing runcancel.txt "
+                              "(test not run?): the cancel-before-parts scenario was not examined", no_input=True)
         ctx.coverage["shared_run_cancel_safe"] = safe
         env4 = dict(env)
         env4["VERIF_NSHARED"] = ctx.scale(500, 6000)
@@ -295,7 +399,7 @@ def run(ctx):
         if rc != 0:
             ctx.violation("driver-failed", "", out[-1500:], no_input=True)
         ctx.read_stats(outdir)
-        ctx.l1(outdir, label="shared")
+        leg_cases(ctx, "shared", ctx.l1(outdir, label="shared"), 200)
         l1_inputs(ctx, outdir)
         ctx.classify(ctx.l2(outdir))
     if replay_kind in (None, "seq"):
@@ -306,7 +410,7 @@ def run(ctx):
         if rc != 0:
             ctx.violation("driver-failed", "", out[-1500:], no_input=True)
         ctx.read_stats(outdir)
-        ctx.l1(outdir, label="seq")
+        leg_cases(ctx, "seq", ctx.l1(outdir, label="seq"), 400)
         l1_inputs(ctx, outdir)
         ctx.classify(ctx.l2(outdir))
     if replay_kind in (None, "handler"):
@@ -319,7 +423,7 @@ def run(ctx):
         ctx.read_stats(outdir)
         # the HTTP response does not carry the error class: compare success / attempts / link
         strip = lambda s: re.sub(r"^res=\S+ ", "", s)
-        ctx.l1(outdir, label="handler", normalize=strip)
+        leg_cases(ctx, "handler", ctx.l1(outdir, label="handler", normalize=strip), 200)
         l1_inputs(ctx, outdir, normalize=strip)
         ctx.classify(ctx.l2(outdir))
     if ctx.thorough:
